@@ -30,6 +30,99 @@ PROPS = {
     },
 }
 
+PROPS["C07"] = {
+    "functions": ["request::nonce_from_request", "request::is_rfc_request", "request::nonce_from_classic_request",
+                  "request::nonce_from_rfc_request", "request::get_supported_version", "RtMessage::from_bytes", "RtMessage::get_field"],
+    "bounds": "size gate: every usize outside 1024..=1500; accept logic: private parsers on small frames (count word concrete, "
+              "frame length/offsets/tags/values symbolic; shapes per harness) against a reference accept predicate",
+    "outside": "the conjunction 'size gate then parser' is read off nonce_from_request's two branches (compositional step); "
+               "datagrams in 1024..=1500 are not executed at full size except for the concrete-layout harnesses",
+    "models": COMMON_MODELS,
+    "assumptions": ["CBMC/Kani translation of Rust MIR is trusted"],
+}
+PROPS["C12"] = {
+    "functions": ["request::nonce_from_rfc_request", "request::get_supported_version", "RtMessage::from_bytes", "RtMessage::get_field",
+                  "Version::wire_bytes"],
+    "bounds": "version lists of 0..=6 arbitrary 32-bit words (all 2^(32k) lists per k), SRV absent / 32 arbitrary bytes against an "
+              "arbitrary expected value / wrong lengths 0, 28, 36; concrete request layout {VER, [SRV], NONC}",
+    "outside": "version lists longer than 6 words; other tag layouts than {VER,[SRV],NONC} (covered for <= 3 fields by c07_rfc)",
+    "models": COMMON_MODELS,
+    "assumptions": ["CBMC/Kani translation of Rust MIR is trusted"],
+}
+
+CRYPTO_MODELS = COMMON_MODELS + [
+    "ed25519-dalek replaced by /verif/shims/dalek-model: public key and signature are uninterpreted functions of (seed) and (seed, message); every signed message is recorded; verify is an arbitrary functional predicate consistent with signing",
+    "ring::digest replaced by /verif/shims/ring-model: SHA-512 is an uninterpreted function (table of recorded queries)",
+    "ring::rand::SystemRandom::fill yields arbitrary bytes (one fresh symbolic block per call)",
+]
+PROPS["C13"] = {
+    "functions": ["MsgSigner::from_seed", "MsgSigner::update", "MsgSigner::sign", "MsgSigner::public_key_bytes",
+                  "MsgVerifier::new", "MsgVerifier::update", "MsgVerifier::verify"],
+    "bounds": "signer: sequences of 1..3 messages, each in 1..3 chunks of lengths from {0,1,4} (thorough: 36+72 and 32+100), all seed and "
+              "message bytes symbolic; verifier: messages of 0, 5 and 132 bytes, key, message and signature bytes symbolic",
+    "outside": "messages longer than 160 bytes, more than 3 messages per signer; that ed25519-dalek implements RFC 8032 (trusted)",
+    "models": CRYPTO_MODELS,
+    "assumptions": ["ed25519-dalek's SigningKey::sign / VerifyingKey::verify are RFC 8032 Ed25519 (the model abstracts them)"],
+}
+PROPS["C11"] = {
+    "functions": ["OnlineKey::make_srep", "OnlineKey::classic_midp", "OnlineKey::rfc_midp", "RtMessage::add_field", "RtMessage::encode",
+                  "MsgSigner::update", "MsgSigner::sign"],
+    "bounds": "clock = UNIX_EPOCH + (secs, nanos): classic secs < 2^40 (year ~36800), IETF secs < 2^62, nanos < 10^9, all values; root bytes symbolic",
+    "outside": "classic clocks beyond 2^40 s (secs*10^6 overflows u64 only beyond year 584000); 'taken when the batch was signed' is "
+               "checked in the responder harness (C09/C02) by pinning the clock",
+    "models": CRYPTO_MODELS,
+    "assumptions": ["std::time::SystemTime arithmetic as compiled by Kani"],
+}
+PROPS["C10"] = {
+    "functions": ["LongTermKey::new", "LongTermKey::calc_srv_value", "LongTermKey::make_cert", "LongTermKey::public_key",
+                  "LongTermKey::srv_value", "OnlineKey::new", "OnlineKey::make_dele", "MsgSigner::*", "Version::dele_prefix"],
+    "bounds": "every 32-byte seed (symbolic); two constructions from one seed; two certificates in sequence from one long-term key "
+              "(IETF then classic as in Server::new; thorough: classic twice)",
+    "outside": "that the model's UF_pk is RFC 8032 key derivation (ed25519-dalek's contract, trusted); restarts are modelled as "
+               "repeated construction in one run; more than two certificates per key",
+    "models": CRYPTO_MODELS,
+    "assumptions": ["ed25519-dalek implements RFC 8032", "ring implements SHA-512"],
+}
+
+PROPS["C04"] = {
+    "functions": ["MerkleTree::new", "MerkleTree::push_leaf", "MerkleTree::compute_root", "MerkleTree::get_paths",
+                  "MerkleTree::root_from_paths", "MerkleTree::reset", "MerkleTree::hash_leaf", "MerkleTree::hash_nodes",
+                  "MerkleTree::finalize_output"],
+    "bounds": "quick: 1..3 leaves (thorough: ..5) of 0/4/8 symbolic bytes, one concrete position per harness, both hash profiles; "
+              "binding for 2 (thorough 3) pairwise distinct leaves against: any other in-range index, any other leaf, any single "
+              "changed path byte, any appended element, removed last element; reuse for batch pairs (3,2), (2,3) (thorough (1,3), (4,1))",
+    "outside": "leaf counts above 5 (same level recursion; not proved), leaves longer than 8 bytes, sequences of more than two batches",
+    "models": ["ring::digest replaced by /verif/shims/ring-model: SHA-512 is an uninterpreted function; for the binding harnesses it is "
+               "additionally assumed collision-free (full width and 32-byte truncation) on the queries of the run"],
+    "assumptions": ["SHA-512 collision resistance (as the injectivity assumption on recorded queries)"],
+}
+
+PROPS["C14"] = {
+    "functions": ["EnvelopeEncryption::encrypt_seed", "EnvelopeEncryption::decrypt_seed", "vec_zero_filled"],
+    "bounds": "seed 32 and 64 bytes, wrapped key 32 and 48 bytes (all bytes symbolic); any single byte at any position >= 4 xor any "
+              "nonzero value; length-field bytes individually; truncation to 0, 95, 96, 127 bytes; extension by 1 and 4 bytes; provider "
+              "faults: error on wrap, error on unwrap, 31- and 33-byte key, any different 32-byte key",
+    "outside": "confidentiality ('blob contains neither seed nor key') is a secrecy property of AES-GCM which the ideal AEAD model "
+               "assumes rather than proves -- not claimed; wrapped-key lengths other than 32/48; two simultaneous modifications",
+    "models": ["ring::aead replaced by an ideal AEAD (/verif/shims/ring-model): seal returns arbitrary ciphertext||tag and records "
+               "(key, nonce, aad, plaintext); open succeeds only on exactly the recorded key, nonce, aad and ciphertext||tag",
+               "KmsProvider is an ideal wrapper defined in the harness (arbitrary wrapped bytes, unwrap only of exactly those bytes)",
+               "alloc::fmt::format and <KmsError as From<io::Error>>::from stubbed (error text is not part of the property)"],
+    "assumptions": ["AES-256-GCM is a secure AEAD (ideal model)"],
+}
+
+PROPS["C17"] = {
+    "functions": ["AggregatedStats::new", "AggregatedStats::add_* (8 recording operations)", "AggregatedStats getters", "AggregatedStats::clear",
+                  "ClientStats::merge"],
+    "bounds": "one recording step from an arbitrary pre-state (nine counters < 2^32, byte count < 2^20) -- inductive over event "
+              "sequences of any length below counter overflow; merge of two arbitrary per-client records (counters < 2^31)",
+    "outside": "PerClientStats (AHashMap: reaches getrandom FFI and does not finish under CBMC; measured in DESIGN.md section 3), the "
+               "reporter's queue, snapshot splitting across workers, and the wiring of the counters into the serving loop except for what the "
+               "responder harness (C09) observes -- those parts of C17 are not claimed",
+    "models": ["std::hash::RandomState::new stubbed with fixed keys (the map inside AggregatedStats is never inserted into)"],
+    "assumptions": ["counters stay below overflow (2^64 events)"],
+}
+
 NOT_APPLICABLE = {
     "C15": "observable is a running multi-threaded process (thread liveness, N workers binding one health-check port, poisoned mutex): Kani/CBMC has no threads, processes or sockets; a model of them would only check the model",
     "C18": "quantifies over OS schedules and SO_REUSEPORT datagram distribution across worker threads: CBMC/Kani does not handle concurrent Rust, the shared state is a lock-free crossbeam queue plus the kernel",
